@@ -203,7 +203,7 @@ def run(ctx):
 
     # ---- R6 offset discipline
     r = ctx.rule("R6", "skip test `offset < _fetch_offset`, advance `= offset+1` with the append, no write in "
-                       "the too-small arm", 4, "A+B")
+                       "the too-small arm", 5, "A+B")
     wr = sorted({f.name for f, kind, node in prog.attr_accesses(ci, "_fetch_offset", False)
                  if kind in ("write", "aug", "del") and f.cls is ci})
     ctx.extra["fetch_offset_writers"] = wr
@@ -248,6 +248,18 @@ def run(ctx):
             "the fetch position is not advanced to `%s.offset + 1` in the block of the append (after the skip test)"
             % M, where(hfr, sm), "advance before the test skips everything; outside the loop redelivers",
             facts=[n.text(60) for n in advs])
+    feed_nodes = [n.id for n in cf.nodes if any(call_name(x) == feeder.name and call_recv(x) == "self" for x in n.calls())]
+    # once a message was extracted (position advanced) every way out - normal, handled or escaping exception - hands
+    # the extracted messages to the feeder (the `if <messages>:` false outcome cannot be taken then)
+    empties = [t for n in cf.nodes if n.kind == "test" and isinstance(n.stmt, ast.If) and norm(n.stmt.test) == call_recv(
+        [c for c in an.calls() if call_name(c) == "append"][0]) for t, lab in cf.succ[n.id] if lab and lab[0] == "cond" and not lab[2]]
+    for wn in advs:
+        out = cf.reach([wn.id], avoid=feed_nodes + empties)
+        r.check(cf.exit.id not in out and cf.raise_exit.id not in out, "%s#extracted-always-delivered" % hfr.qname,
+                "after the fetch position was advanced past a message, an exit (e.g. a decode error later in the same reply) leaves "
+                "without handing the extracted messages to the processor", where(hfr, wn.stmt),
+                "reply with good messages followed by one whose decode raises (CRC, unsupported codec): the good ones are dropped and "
+                "never refetched - omission")
     exc_nodes = [n for n in cf.nodes if n.kind == "except" and "ConsumerFetchSizeTooSmall" in norm(n.stmt.type or
                  ast.Constant(value=None))]
     need(exc_nodes, "no ConsumerFetchSizeTooSmall handler in %s" % hfr.qname)
@@ -405,6 +417,10 @@ MUTANTS = [
      "expect": "C02.R8"},
 ]
 
+MUTANTS.append({"id": "delivery-not-in-finally", "file": "consumer.py",
+                "old": "        finally:\n            # If we were able to extract any messages, deliver them to the\n            # processor now.\n            if messages:\n                self._msg_block_d = Deferred()\n                self._process_messages(messages)\n",
+                "new": "        # If we were able to extract any messages, deliver them to the\n        # processor now.\n        if messages:\n            self._msg_block_d = Deferred()\n            self._process_messages(messages)\n",
+                "expect": "C02.R6", "note": "seeded C02-4"})
 MUTANTS.append({"id": "rebase-by-count", "file": "kafkacodec.py", "old": "                    base = offset - inner[-1][0]",
                 "new": "                    base = offset - (len(inner) - 1)", "expect": "C02.R8", "note": "seeded C02-2 / C05-1"})
 TWINS = [
